@@ -374,6 +374,8 @@ def big_rows_case(draw, maxF=3, maxK=3, many_clusters=False):
     if many_clusters and choice(draw, [False, False, True]):
         # rows x clusters beyond 2**20 (a distance matrix of 8 MiB): 32 clusters and 4e4 .. 7e4 rows
         n, k = choice(draw, [40000, 66000]) + integer(draw, 0, 7), 32
+        if boolean(draw):
+            n, k = 5000 + integer(draw, 0, 7), 80  # many clusters in few dimensions
     cuts = sorted(set(integer(draw, 1, n - 1) for _ in range(integer(draw, 1, 4))))
     return {"F": integer(draw, 1, maxF), "k": k, "n": n, "scale": 10.0 ** integer(draw, -2, 2),
             "data_seed": integer(draw, 0, 2**31 - 1), "sorted": boolean(draw),
